@@ -334,7 +334,13 @@ pub enum P {
     /// `literal(s).anywhere()`: consumes the first item equal to `s` wherever it stands
     LiteralAnywhere(String),
     /// `any(metavar, |s| s.contains('=').then(..))`: takes the first unconsumed item that looks like KEY=VAL
-    AnyKv { metavar: String, help: Option<DocSpec> },
+    AnyKv {
+        metavar: String,
+        help: Option<DocSpec>,
+        /// accept option-looking items (`--tag=NAME`) instead of plain `KEY=VAL` words
+        #[serde(default)]
+        dash: bool,
+    },
 }
 
 #[derive(Clone, Debug, PartialEq, Eq, Hash, Serialize, Deserialize, Default)]
@@ -748,8 +754,9 @@ pub fn build_p(p: &P) -> BP {
         }
         P::Fail(m) => fail::<Val>(intern(m)).boxed(),
         P::LiteralAnywhere(s) => literal(intern(s)).anywhere().map(|_| Val::U).boxed(),
-        P::AnyKv { metavar, help } => {
-            let a = any::<String, _, _>(intern(metavar), |s: String| if s.contains('=') && !s.starts_with('-') { Some(Val::s(&s)) } else { None });
+        P::AnyKv { metavar, help, dash } => {
+            let dash = *dash;
+            let a = any::<String, _, _>(intern(metavar), move |s: String| if s.contains('=') && s.starts_with('-') == dash { Some(Val::s(&s)) } else { None });
             match help {
                 Some(h) => a.help(h.build()).boxed(),
                 None => a.boxed(),
